@@ -33,6 +33,47 @@ type activity struct {
 	conv   bool
 	// endpoint: a PCAP-over-IP endpoint served by the harness sends packets while the calls run
 	endpoint bool
+	// free: an activity of the environment (file-system events the service watches) that runs with
+	// the gates off while the calls run
+	free func(w *svc.World)
+}
+
+// dropIntoWatchDir copies captures into the watched directory; the service's watcher copies each
+// into the capture directory after its 500 ms debounce timer (on a timer goroutine) and imports it.
+func dropIntoWatchDir(w *svc.World) {
+	for i, n := range []string{"P4.pcap", "P2.pcap"} {
+		b, err := os.ReadFile(filepath.Join(w.Staging, n))
+		if err != nil {
+			mc.Fatal("%v", err)
+		}
+		dst := filepath.Join(w.Dir, "watch", fmt.Sprintf("w%d.pcap", i))
+		// written in two pieces: Create and Write events reset the same debounce timer
+		if err := os.WriteFile(dst, b[:len(b)/2], 0o644); err != nil {
+			mc.Fatal("%v", err)
+		}
+		time.Sleep(50 * time.Millisecond)
+		if err := os.WriteFile(dst, b, 0o644); err != nil {
+			mc.Fatal("%v", err)
+		}
+		time.Sleep(250 * time.Millisecond)
+	}
+	time.Sleep(900 * time.Millisecond)
+}
+
+// churnConverterDir adds a second converter executable, touches it (the watcher restarts its
+// processes) and removes it again, each step behind the watcher's 500 ms debounce.
+func churnConverterDir(w *svc.World) {
+	second := filepath.Join(w.ConvDir, "conv2")
+	if err := os.Symlink(w.ConverterBin, second); err != nil {
+		mc.Fatal("%v", err)
+	}
+	time.Sleep(700 * time.Millisecond)
+	now := time.Now()
+	os.Chtimes(filepath.Join(w.ConvDir, "conv"), now, now)
+	os.Chtimes(second, now, now)
+	time.Sleep(700 * time.Millisecond)
+	os.Remove(second)
+	time.Sleep(300 * time.Millisecond)
 }
 
 // servePcapOverIP listens on a local port and streams the given capture file (global header,
@@ -88,16 +129,18 @@ func servePcapOverIP(file string, stop chan struct{}) (string, error) {
 }
 
 var activities = []activity{
-	{"import body", []string{"api:import:P1"}, "import", false, false},
-	{"second import body with indexes present", []string{"api:import:P1", "drain", "api:addtag:tag/d=cdata:foo", "drain", "api:import:P3"}, "import", false, false},
-	{"tagging job body", []string{"api:import:P1", "drain", "api:addtag:tag/d=cdata:foo"}, "tag", false, false},
-	{"tagging job body of an id-only tag", []string{"api:import:P1", "drain", "api:addtag:tag/d=id:0,1"}, "tag", false, false},
-	{"tagging job body of a tag referring to a mark", []string{"api:import:P1", "drain", "api:addtag:mark/m=id:0", "drain", "api:addtag:tag/d=mark:m"}, "tag", false, false},
-	{"tagging job body of a data tag next to a finished port tag", []string{"api:import:P1", "drain", "api:addtag:tag/p=cport:1", "drain", "api:addtag:tag/d=cdata:foo"}, "tag", false, false},
-	{"merge job body", []string{"api:import:P1", "drain", "api:import:P2", "step:import", "step:import"}, "merge", false, false},
-	{"conversion job body", []string{"api:import:P1", "drain", "api:addtag:tag/p=cport:1", "drain", "api:converters:tag/p=conv"}, "convert", true, false},
-	{"PCAP-over-IP endpoint receiving packets", []string{"api:import:P1", "drain", "api:addtag:tag/d=cdata:foo", "drain"}, "", false, true},
-	{"tag-update ticker with pending signals", []string{"api:import:P1", "drain", "api:addtag:tag/d=cdata:foo", "drain", "api:color:tag/d=#111111"}, "", false, false},
+	{"import body", []string{"api:import:P1"}, "import", false, false, nil},
+	{"second import body with indexes present", []string{"api:import:P1", "drain", "api:addtag:tag/d=cdata:foo", "drain", "api:import:P3"}, "import", false, false, nil},
+	{"tagging job body", []string{"api:import:P1", "drain", "api:addtag:tag/d=cdata:foo"}, "tag", false, false, nil},
+	{"tagging job body of an id-only tag", []string{"api:import:P1", "drain", "api:addtag:tag/d=id:0,1"}, "tag", false, false, nil},
+	{"tagging job body of a tag referring to a mark", []string{"api:import:P1", "drain", "api:addtag:mark/m=id:0", "drain", "api:addtag:tag/d=mark:m"}, "tag", false, false, nil},
+	{"tagging job body of a data tag next to a finished port tag", []string{"api:import:P1", "drain", "api:addtag:tag/p=cport:1", "drain", "api:addtag:tag/d=cdata:foo"}, "tag", false, false, nil},
+	{"merge job body", []string{"api:import:P1", "drain", "api:import:P2", "step:import", "step:import"}, "merge", false, false, nil},
+	{"conversion job body", []string{"api:import:P1", "drain", "api:addtag:tag/p=cport:1", "drain", "api:converters:tag/p=conv"}, "convert", true, false, nil},
+	{"PCAP-over-IP endpoint receiving packets", []string{"api:import:P1", "drain", "api:addtag:tag/d=cdata:foo", "drain"}, "", false, true, nil},
+	{"tag-update ticker with pending signals", []string{"api:import:P1", "drain", "api:addtag:tag/d=cdata:foo", "drain", "api:color:tag/d=#111111"}, "", false, false, nil},
+	{"watch directory receiving captures", []string{"api:import:P1", "drain", "api:addtag:tag/d=cdata:foo", "drain"}, "", false, false, dropIntoWatchDir},
+	{"converter directory: executable added, touched, removed", []string{"api:import:P1", "drain", "api:addtag:tag/p=cport:1", "drain", "api:converters:tag/p=conv", "drain"}, "", true, false, churnConverterDir},
 }
 
 type call struct {
@@ -107,6 +150,8 @@ type call struct {
 
 func calls() []call {
 	q, _ := query.Parse("cport:1 sort:id")
+	qTag, _ := query.Parse("tag:d or -tag:p")
+	qConv, _ := query.Parse("cdata.conv:FOO")
 	return []call{
 		{"Status", func(w *svc.World, i int) { w.Mgr.Status() }},
 		{"ListTags", func(w *svc.World, i int) { w.Mgr.ListTags() }},
@@ -187,6 +232,30 @@ func calls() []call {
 			<-done
 			closer()
 		}},
+		{"ResetConverter + ConverterStderr of every process", func(w *svc.World, i int) {
+			for _, st := range w.Mgr.ListConverters() {
+				for _, p := range st.Processes {
+					if se, err := w.Mgr.ConverterStderr(st.Name, p.Pid); err == nil && se != nil {
+						_ = len(se.Stderr)
+					}
+				}
+			}
+			if i%8 == 3 {
+				w.Mgr.ResetConverter("conv")
+			}
+		}},
+		{"view: reference time, HasTag, searches by tag and by converter data", func(w *svc.World, i int) {
+			v := w.Mgr.GetView()
+			v.ReferenceTime()
+			if sc, err := v.Stream(uint64(i % 3)); err == nil && sc.Stream() != nil {
+				sc.HasTag("tag/d")
+				sc.HasTag("tag/p")
+				sc.AllConverters()
+			}
+			v.SearchStreams(context.Background(), qTag, func(sc manager.StreamContext) error { sc.AllTags(); return nil }, manager.Limit(100, 0))
+			v.SearchStreams(context.Background(), qConv, func(sc manager.StreamContext) error { sc.Data("conv"); return nil }, manager.Limit(100, 0))
+			v.Release()
+		}},
 		{"SetConfig+webhook", func(w *svc.World, i int) {
 			w.Mgr.SetConfig(manager.Config{AutoInsertLimitToQuery: i%2 == 0})
 			u := fmt.Sprintf("http://127.0.0.1:9/h%d", i)
@@ -235,6 +304,8 @@ func Child(idx int) int {
 	p := ps[idx]
 	act, cl := activities[p.a], calls()[p.b]
 	bin := filepath.Join(mc.VerifDir, "bin", "vconv")
+	svc.UseWatchDir = true
+	os.Setenv("VCONV_STDERR", "1")
 	w, err := svc.NewWorld(bin)
 	if err != nil {
 		mc.Fatal("%v", err)
@@ -316,6 +387,11 @@ func Child(idx int) int {
 				w.Mgr.ListPcapOverIPEndpoints()
 			}
 			w.Mgr.DelPcapOverIPEndpoint(addr)
+		}
+		if act.free != nil {
+			w.FreeRun()
+			act.free(w)
+			w.WaitIdle(20 * time.Second)
 		}
 		time.Sleep(1300 * time.Millisecond) // one period of the 1 s ticker
 	}
